@@ -82,12 +82,13 @@ def key_of(e):
 _FRESH = [None]      # when set: a callable giving the string-hash seed of the next child interpreter
 
 
-def run_cycle(flags, load, trigger, knobs=None):
+def run_cycle(flags, load, trigger, knobs=None, limit=None):
+    argv = argv_for(flags, load) + (["--limit", str(limit)] if limit else [])
     if _FRESH[0] is not None:
         from .. import freshproc
-        return freshproc.run_cycle(argv_for(flags, load), trigger, knobs, _FRESH[0]())
+        return freshproc.run_cycle(argv, trigger, knobs, _FRESH[0]())
     ctx = session.SessionCtx(trigger=trigger, knobs=knobs)
-    r = session.run_main(argv_for(flags, load), ctx)
+    r = session.run_main(argv, ctx)
     E = session.emitted_preterminals(ctx)
     ends = [e["first_line"] for e in E[1:]] + [ctx.nlines]
     for e, end in zip(E, ends):
@@ -255,10 +256,23 @@ def run_history(res, U, triggers, flags, wr, knob_tape=None, keep_stale_omn=Fals
     else:
         clean_sessions(wr)
     seg = []
-    for cyc, trig in enumerate(list(triggers) + [None]):
+    triggers = list(triggers)
+    while triggers and triggers[0][0] == "limit":
+        triggers.pop(0)             # (a limit sitting only makes sense after a quit has left a session on the disk)
+    for cyc, trig in enumerate(triggers + [None]):
         knobs = None
         if knob_tape is not None:
             knobs = {"optimizer_max_length": knob_tape.draw(7)}
+        if trig is not None and trig[0] == "limit":
+            # a sitting that ends because --limit was reached: it writes no save file, so the session on disk is still the
+            # one the previous quit left, and the next --load has to behave as if this sitting had never happened
+            if cyc > 0:
+                rl = run_cycle(flags, load=True, trigger=None, knobs=knobs, limit=trig[1])
+                res.faults["sitting_ended_by_limit_without_saving"] += 1
+                seg.append((len(rl.emitted), len(rl.remainder), "limit"))
+                if rl.exc:
+                    return ("raised", {"cycle": cyc, "exception": rl.exc[-1200:], "history": repr(list(triggers))}, None), seg
+            continue
         r = run_cycle(flags, load=cyc > 0, trigger=trig, knobs=knobs)
         res.sim_seconds += r.ctx.clock.now
         problem = oracle.cycle(r, wr)
@@ -326,12 +340,20 @@ def run_c08(tape, tier, res):
         nmulti = 8
     else:
         nmulti = 5
+    total_lines = sum(len(e["lines"]) for e in U)
     for _ in range(nmulti):
         ncuts = t.between(1, 4)
         cuts = []
         remaining = n
         for _c in range(ncuts):
             style = t.draw(5)
+            if has_m_line and total_lines >= 2 and t.chance(1, 4):
+                # the quit comes after the g-th guess of the process: inside a Markov level when g falls there
+                cuts.append(("guess", t.between(1, max(1, min(total_lines, 40)))))
+                continue
+            if t.chance(1, 8):
+                cuts.append(("limit", t.choice([1, 5, 60, 2000])))
+                continue
             if style == 4:
                 # the quit request is already pending when the process starts working (also while a
                 # saved session is being restored): zero pre-terminals later it must stop and save
@@ -451,6 +473,8 @@ def run_c15(tape, tier, res):
                 out.append(("pop", t.between(1, 6)))
             elif kind == 1:
                 out.append(("remainder", t.between(1, 8)))
+            elif kind == 2 and t.chance(1, 2):
+                out.append(("limit", t.choice([1, 3, 40, 400, 5000])))
             elif kind == 2:
                 out.append(("omen", t.between(1, 2), t.between(1, 10)))
             elif t.chance(1, 2):
